@@ -4,7 +4,6 @@
 //! property's oracle: opens, head is old/new/ancestor, full validation passes, re-delivery
 //! reaches the uninterrupted state.
 use grin_chain::Chain;
-use grin_core::core::hash::Hashed;
 use grin_core::core::{Block, BlockHeader};
 use grin_core::ser::{self, DeserializationMode, ProtocolVersion};
 use grin_store::verif_hooks;
@@ -37,21 +36,44 @@ fn copy_dir(src: &Path, dst: &Path) {
 	}
 }
 
-fn do_input(chain: &Chain, kind: &str, block: Option<&Block>) -> String {
+fn cls<T>(r: Result<T, grin_chain::Error>, ok: &str) -> String {
+	match r {
+		Ok(_) => ok.to_string(),
+		Err(e) => format!("err:{}", error_class(&e)),
+	}
+}
+
+/// the interrupted input. Kinds: `block` (Chain::process_block), `header`
+/// (Chain::process_block_header), `headers` (Chain::sync_block_headers of the whole list, sync
+/// head = header head), `orphans` (blocks = parent, child: the child is delivered first and parked
+/// in the orphan pool, the parent's acceptance then triggers check_orphans = two acceptances in one
+/// call), `compact` (Chain::compact), `reset` (Chain::reset_chain_head(block, true))
+fn do_input(chain: &Chain, kind: &str, blocks: &[Block]) -> String {
+	let opts = grin_chain::Options::SKIP_POW;
 	match kind {
-		"block" => match chain.process_block(block.unwrap().clone(), grin_chain::Options::SKIP_POW) {
+		"block" => match chain.process_block(blocks[0].clone(), opts) {
 			Ok(Some(_)) => "ok:head".into(),
 			Ok(None) => "ok:fork".into(),
 			Err(e) => format!("err:{}", error_class(&e)),
 		},
-		"header" => match chain.process_block_header(&block.unwrap().header, grin_chain::Options::SKIP_POW) {
-			Ok(_) => "ok".into(),
-			Err(e) => format!("err:{}", error_class(&e)),
-		},
-		"compact" => match chain.compact() {
-			Ok(_) => "ok".into(),
-			Err(e) => format!("err:{}", error_class(&e)),
-		},
+		"header" => cls(chain.process_block_header(&blocks[0].header, opts), "ok"),
+		"headers" => {
+			let hs: Vec<BlockHeader> = blocks.iter().map(|b| b.header.clone()).collect();
+			match chain.header_head() {
+				Ok(sync_head) => cls(chain.sync_block_headers(&hs, sync_head, opts), "ok"),
+				Err(e) => format!("err:{}", error_class(&e)),
+			}
+		}
+		"orphans" => {
+			// a re-delivery after a restart finds the child either accepted already or not known
+			let r0 = cls(chain.process_block(blocks[1].clone(), opts), "ok");
+			let r1 = cls(chain.process_block(blocks[0].clone(), opts), "ok");
+			let r2 = cls(chain.process_block(blocks[1].clone(), opts), "ok");
+			let any_ok = r0 == "ok" || r1 == "ok" || r2 == "ok";
+			if any_ok { "ok".into() } else { format!("{}", r1) }
+		}
+		"compact" => cls(chain.compact(), "ok"),
+		"reset" => cls(chain.reset_chain_head(grin_chain::Tip::from_header(&blocks[0].header), true), "ok"),
 		_ => "err:unknown-kind".into(),
 	}
 }
@@ -63,15 +85,31 @@ fn child(args: &[String]) {
 	let genesis = read_block(&args[1]);
 	let kind = &args[2];
 	let n: i64 = args[3].parse().unwrap();
-	let block = if args.len() > 4 && args[4] != "-" { Some(read_block(&args[4])) } else { None };
+	let blocks: Vec<Block> = if args.len() > 4 && args[4] != "-" {
+		args[4].split(',').map(|p| read_block(p)).collect()
+	} else {
+		vec![]
+	};
 	let chain = match init_chain(dir, genesis) {
 		Ok(c) => c,
 		Err(_) => std::process::exit(3),
 	};
 	verif_hooks::arm(n);
-	let _ = do_input(&chain, kind, block.as_ref());
+	let _ = do_input(&chain, kind, &blocks);
 	verif_hooks::arm(0);
 	std::process::exit(0);
+}
+
+/// child: restart the node (Chain::init = start-up recovery) with the m-th crash point armed
+fn child_reopen(args: &[String]) {
+	setup_globals();
+	let dir = &args[0];
+	let genesis = read_block(&args[1]);
+	let m: i64 = args[2].parse().unwrap();
+	verif_hooks::arm(m);
+	let r = init_chain(dir, genesis);
+	verif_hooks::arm(0);
+	std::process::exit(if r.is_ok() { 0 } else { 4 });
 }
 
 struct Snap {
@@ -112,16 +150,368 @@ fn snap(c: &Chain, kit: &Kit) -> Snap {
 	}
 }
 
+#[derive(Clone)]
 struct Scenario {
 	name: &'static str,
 	/// blocks delivered (uninterrupted) to form the base state
 	pre: Vec<usize>,
+	/// headers delivered after them (one sync_block_headers batch)
+	pre_headers: Vec<usize>,
 	compact_pre: bool,
 	kind: &'static str,
-	input: Option<usize>,
-	/// a further header delivered after the (re-)delivered input: its outcome must equal the
-	/// uninterrupted node's (exposes silent damage to the header MMR)
-	followup: Option<usize>,
+	input: Vec<usize>,
+	/// further inputs delivered after the (re-)delivered input: their outcomes and the head /
+	/// header head they lead to must equal the uninterrupted node's (exposes silent damage, e.g. to
+	/// the header MMR)
+	followup: Vec<(&'static str, usize)>,
+	/// quick tier: enumerate second process deaths during the restart (thorough: every scenario)
+	second: bool,
+}
+
+fn sc(name: &'static str, pre: &[usize], kind: &'static str, input: &[usize]) -> Scenario {
+	Scenario { name, pre: pre.to_vec(), pre_headers: vec![], compact_pre: false, kind, input: input.to_vec(), followup: vec![], second: false }
+}
+
+/// LMDB commits carry no file name: qualify them by the last file step before them
+fn qualify(raw_labels: Vec<String>) -> Vec<String> {
+	let mut labels = vec![];
+	let mut last_file = "start".to_string();
+	for l in raw_labels {
+		if let Some(i) = l.find('[') {
+			last_file = l[i + 1..l.len() - 1].to_string();
+			labels.push(l);
+		} else {
+			labels.push(format!("{}(after:{})", l, last_file));
+		}
+	}
+	labels
+}
+
+/// a crash point after which the durable state differs from the state at the previous point
+fn state_changing(label: &str) -> bool {
+	label.starts_with("aof.flush:after-truncate")
+		|| label.starts_with("aof.flush:after-append")
+		|| label.starts_with("tmpfile:after-rename")
+		|| label.starts_with("aof.replace:between")
+		|| label.starts_with("aof.replace:after-rename")
+		|| label.starts_with("lmdb:after-commit")
+}
+
+struct Ctx<'a> {
+	kit: &'a Kit,
+	sc: &'a Scenario,
+	input_blocks: Vec<Block>,
+	allowed: Vec<String>,
+	new_: Snap,
+	ref_followup: Vec<String>,
+	ref_after_followup: (String, String),
+}
+
+struct Eval {
+	verdict: String,
+	good: bool,
+	rec_labels: Vec<String>,
+}
+
+/// restart the node on the directory a killed process left and evaluate the property's oracle
+fn evaluate(cx: &Ctx, dir: &str) -> Eval {
+	let kit = cx.kit;
+	let gen = kit.genesis.clone();
+	let dir2 = dir.to_string();
+	verif_hooks::start_log();
+	let opened = catch(move || init_chain(&dir2, gen));
+	let rec_labels = qualify(verif_hooks::take_log());
+	let verdict = match opened {
+		Err(p) => format!("open=panic:{}", p.chars().take(60).collect::<String>()),
+		Ok(Err(e)) => format!("open=err:{}", error_class(&e)),
+		Ok(Ok(c)) => {
+			let s = snap(&c, kit);
+			let head_ok = cx.allowed.contains(&s.head);
+			let val = match catch(std::panic::AssertUnwindSafe(|| c.validate(false))) {
+				Ok(Ok(_)) => "ok".to_string(),
+				Ok(Err(e)) => format!("err:{}", error_class(&e)),
+				Err(_) => "panic".to_string(),
+			};
+			// index consistency: what the node reports as unspent = replay of its head's path
+			// (checked by the model from the utxo list); then re-deliver the interrupted input
+			let redo = match catch(std::panic::AssertUnwindSafe(|| do_input(&c, cx.sc.kind, &cx.input_blocks))) {
+				Ok(r) => r,
+				Err(_) => "panic".into(),
+			};
+			let after = snap(&c, kit);
+			let fu: Vec<String> = cx
+				.sc
+				.followup
+				.iter()
+				.map(|(k, f)| {
+					let b = [kit.blks[*f].block.clone()];
+					catch(std::panic::AssertUnwindSafe(|| do_input(&c, k, &b))).unwrap_or("panic".into())
+				})
+				.collect();
+			let fu_same = fu == cx.ref_followup;
+			let after_fu = snap(&c, kit);
+			let fu_state_same = (after_fu.head.clone(), after_fu.hhead.clone()) == cx.ref_after_followup;
+			let new_ = &cx.new_;
+			let same = after.head == new_.head
+				&& after.hhead == new_.hhead
+				&& after.roots == new_.roots
+				&& after.utxo == new_.utxo
+				&& fu_same && fu_state_same;
+			let u: Vec<String> = s.utxo.iter().map(|i| format!("o{}", i)).collect();
+			format!(
+				"open=ok head={} head_allowed={} validate={} utxo=[{}] redeliver={} final={}",
+				s.head,
+				head_ok,
+				val,
+				u.join(","),
+				redo.split(':').next().unwrap_or(""),
+				if same {
+					"same".to_string()
+				} else {
+					format!(
+						"differs(head={} want={} hhead={} want={} roots={} utxo={})",
+						after.head,
+						new_.head,
+						after.hhead,
+						new_.hhead,
+						if after.roots == new_.roots { "same".to_string() } else { format!("{}!={}", after.roots, new_.roots) },
+						if after.utxo == new_.utxo { "same".to_string() } else { format!("{}vs{}", after.utxo.len(), new_.utxo.len()) }
+					) + &format!(" followup={:?}:{}/{} want={:?}:{}/{}", fu, after_fu.head, after_fu.hhead, cx.ref_followup, cx.ref_after_followup.0, cx.ref_after_followup.1)
+				}
+			)
+		}
+	};
+	let good = verdict.starts_with("open=ok")
+		&& verdict.contains("head_allowed=true")
+		&& verdict.contains("validate=ok")
+		&& verdict.contains("final=same");
+	Eval { verdict, good, rec_labels }
+}
+
+/// the part of a verdict two restarts of the same durable history must agree on
+fn verdict_class(v: &str) -> String {
+	let mut keep = vec![];
+	for t in v.split(' ') {
+		if t.starts_with("open=") || t.starts_with("head=") || t.starts_with("head_allowed=") || t.starts_with("validate=") || t.starts_with("utxo=") || t.starts_with("redeliver=") {
+			keep.push(t.to_string());
+		} else if t.starts_with("final=") {
+			keep.push(if t == "final=same" { "final=same".to_string() } else { "final=differs".to_string() });
+		}
+	}
+	keep.join(" ")
+}
+
+/// outcome class of a restart without block ids (shared between scenarios)
+fn outcome_class(v: &str) -> String {
+	verdict_class(v).split(' ').filter(|t| !t.starts_with("head=") && !t.starts_with("utxo=")).collect::<Vec<_>>().join(" ")
+}
+
+#[derive(Default)]
+struct Tot {
+	points: u64,
+	failing: u64,
+	second_classes: u64,
+	second_points: u64,
+	second_failing: u64,
+	second_differs: u64,
+}
+
+fn run_scenario(kit: &Kit, sc: &Scenario, work: &str, exe: &Path, gen_path: &str, thorough: bool, seed: u64) -> (Vec<String>, Tot) {
+	let mut out: Vec<String> = vec![];
+	let mut tot = Tot::default();
+	// ---- base state ----
+	let base = format!("{}/{}-base", work, sc.name);
+	{
+		let c = init_chain(&base, kit.genesis.clone()).unwrap();
+		for i in &sc.pre {
+			c.process_block(kit.blks[*i].block.clone(), grin_chain::Options::SKIP_POW).unwrap();
+		}
+		if !sc.pre_headers.is_empty() {
+			let hs: Vec<BlockHeader> = sc.pre_headers.iter().map(|i| kit.blks[*i].block.header.clone()).collect();
+			c.sync_block_headers(&hs, c.header_head().unwrap(), grin_chain::Options::SKIP_POW).unwrap();
+		}
+		if sc.compact_pre {
+			c.compact().unwrap();
+		}
+	}
+	let input_blocks: Vec<Block> = sc.input.iter().map(|i| kit.blks[*i].block.clone()).collect();
+	let input_path = if sc.input.is_empty() {
+		"-".to_string()
+	} else {
+		sc.input.iter().map(|i| format!("{}/blocks/b{}.bin", work, i)).collect::<Vec<_>>().join(",")
+	};
+	// ---- reference: uninterrupted, with the step log ----
+	let refdir = format!("{}/{}-ref", work, sc.name);
+	copy_dir(Path::new(&base), Path::new(&refdir));
+	let (old, new_, labels, res, ref_followup, ref_after_followup) = {
+		let c = init_chain(&refdir, kit.genesis.clone()).unwrap();
+		let old = snap(&c, kit);
+		verif_hooks::start_log();
+		let res = do_input(&c, sc.kind, &input_blocks);
+		let labels = qualify(verif_hooks::take_log());
+		let new_ = snap(&c, kit);
+		let fu: Vec<String> = sc.followup.iter().map(|(k, f)| do_input(&c, k, &[kit.blks[*f].block.clone()])).collect();
+		let af = snap(&c, kit);
+		(old, new_, labels, res, fu, (af.head, af.hhead))
+	};
+	let ids: Vec<String> = sc.input.iter().map(|i| format!("b{}", i)).collect();
+	out.push(format!(
+		"crash scenario {} kind={} input={} => {} steps={} old={} new={} oldhh={} newhh={}",
+		sc.name,
+		sc.kind,
+		if ids.is_empty() { "-".to_string() } else { ids.join(",") },
+		res,
+		labels.len(),
+		old.head,
+		new_.head,
+		old.hhead,
+		new_.hhead
+	));
+	out.push(format!("crash steps {} {}", sc.name, labels.join(",")));
+	// ancestors of the old and new head (allowed heads after recovery)
+	let mut allowed: Vec<String> = vec![];
+	for start in [&old.head, &new_.head] {
+		if let Some(mut i) = start.strip_prefix('b').and_then(|s| s.parse::<usize>().ok()) {
+			loop {
+				allowed.push(format!("b{}", i));
+				match kit.blks[i].parent {
+					Some(p) => i = p,
+					None => break,
+				}
+			}
+		}
+	}
+	let cx = Ctx { kit, sc, input_blocks, allowed, new_, ref_followup, ref_after_followup };
+	let run_child = |dir: &str, n: usize| -> i32 {
+		Command::new(exe)
+			.args(["child", dir, gen_path, sc.kind, &n.to_string(), &input_path])
+			.status()
+			.unwrap()
+			.code()
+			.unwrap_or(-1)
+	};
+	let mut seen_classes: std::collections::HashSet<String> = std::collections::HashSet::new();
+	// ---- every crash point ----
+	for n in 1..=labels.len() {
+		tot.points += 1;
+		let dir = format!("{}/{}-c{}", work, sc.name, n);
+		copy_dir(Path::new(&base), Path::new(&dir));
+		let code = run_child(&dir, n);
+		let label = &labels[n - 1];
+		let lhs = format!("crash case {} {} {}", sc.name, n, label);
+		if code != 86 {
+			out.push(format!("{} => child-exit={}", lhs, code));
+			out.push(format!("#ORACLE-FAIL C09 harness: child did not die at the armed step: scenario={} n={} label={} exit={}", sc.name, n, label, code));
+			continue;
+		}
+		let ev = evaluate(&cx, &dir);
+		out.push(format!("{} => {}", lhs, ev.verdict));
+		if !ev.good {
+			tot.failing += 1;
+			out.push(format!(
+				"#ORACLE-FAIL C09 crash-recovery scenario={} step={}/{} label={} :: {}",
+				sc.name,
+				n,
+				labels.len(),
+				label,
+				ev.verdict.chars().take(300).collect::<String>()
+			));
+		}
+		let _ = std::fs::remove_dir_all(&dir);
+
+		// ---- a second process death, during the start-up recovery of this durable state ----
+		// one representative first crash point per class (same recovery step list, same outcome);
+		// quick tier: the second death right after each state-changing recovery step, thorough: at
+		// every recovery step
+		let class = format!("{}|{}", ev.rec_labels.join(","), outcome_class(&ev.verdict));
+		if !(thorough || sc.second) || ev.rec_labels.is_empty() || !seen_classes.insert(class) {
+			continue;
+		}
+		tot.second_classes += 1;
+		out.push(format!("crash rsteps {} {} {}", sc.name, n, ev.rec_labels.join(",")));
+		let crashed = format!("{}/{}-x{}", work, sc.name, n);
+		copy_dir(Path::new(&base), Path::new(&crashed));
+		if run_child(&crashed, n) != 86 {
+			let _ = std::fs::remove_dir_all(&crashed);
+			continue;
+		}
+		let ms: Vec<usize> = (1..=ev.rec_labels.len())
+			.filter(|m| thorough || state_changing(&ev.rec_labels[*m - 1]))
+			.collect();
+		// at most 6 (quick) / 48 (thorough) second crash points per class, a seed-dependent selection
+		let cap = if thorough { 48 } else { 6 };
+		let ms: Vec<usize> = if ms.len() <= cap {
+			ms
+		} else {
+			let stride = (ms.len() + cap - 1) / cap;
+			let off = (seed as usize + n) % stride;
+			ms.iter().cloned().enumerate().filter(|(i, _)| i % stride == off).map(|(_, m)| m).collect()
+		};
+		for m in ms {
+			tot.second_points += 1;
+			let dir = format!("{}/{}-x{}-r{}", work, sc.name, n, m);
+			copy_dir(Path::new(&crashed), Path::new(&dir));
+			let code = Command::new(exe)
+				.args(["reopen", &dir, gen_path, &m.to_string()])
+				.status()
+				.unwrap()
+				.code()
+				.unwrap_or(-1);
+			let label2 = &ev.rec_labels[m - 1];
+			let lhs = format!("crash case2 {} {} {} {} {}", sc.name, n, m, label, label2);
+			if code != 86 {
+				out.push(format!("{} => child-exit={}", lhs, code));
+				out.push(format!(
+					"#ORACLE-FAIL C09 harness: restarted child did not die at the armed recovery step: scenario={} n={} m={} label2={} exit={}",
+					sc.name, n, m, label2, code
+				));
+				let _ = std::fs::remove_dir_all(&dir);
+				continue;
+			}
+			let ev2 = evaluate(&cx, &dir);
+			out.push(format!("{} => {}", lhs, ev2.verdict));
+			if !ev2.good {
+				tot.second_failing += 1;
+				out.push(format!(
+					"#ORACLE-FAIL C09 crash-recovery scenario={}+recrash step={}/{} label={} :: {} second={}/{} label2={}",
+					sc.name,
+					n,
+					labels.len(),
+					label,
+					ev2.verdict.chars().take(300).collect::<String>(),
+					m,
+					ev.rec_labels.len(),
+					label2
+				));
+			}
+			// recovery must be restartable: dying inside it and restarting again ends where the
+			// uninterrupted recovery ends
+			if verdict_class(&ev2.verdict) != verdict_class(&ev.verdict) {
+				tot.second_differs += 1;
+				out.push(format!(
+					"#ORACLE-FAIL C09 crash-recrash-differs scenario={} step={}/{} label={} second={}/{} label2={} :: uninterrupted recovery: {} ;; recovery killed and restarted: {}",
+					sc.name,
+					n,
+					labels.len(),
+					label,
+					m,
+					ev.rec_labels.len(),
+					label2,
+					ev.verdict.chars().take(260).collect::<String>(),
+					ev2.verdict.chars().take(260).collect::<String>()
+				));
+			}
+			let _ = std::fs::remove_dir_all(&dir);
+		}
+		let _ = std::fs::remove_dir_all(&crashed);
+	}
+	let _ = std::fs::remove_dir_all(&base);
+	let _ = std::fs::remove_dir_all(&refdir);
+	out.push(format!(
+		"#STAT scenario={} kind={} steps={} failing={} recovery_classes={} second_crash_points={} second_failing={} second_differs={}",
+		sc.name, sc.kind, tot.points, tot.failing, tot.second_classes, tot.second_points, tot.second_failing, tot.second_differs
+	));
+	(out, tot)
 }
 
 fn main() {
@@ -131,18 +521,24 @@ fn main() {
 		child(&args[2..]);
 		return;
 	}
+	if args.len() > 1 && args[1] == "reopen" {
+		child_reopen(&args[2..]);
+		return;
+	}
 	setup_globals();
 	let exe = std::env::current_exe().unwrap();
 	let work = std::env::var("VERIF_WORK").unwrap_or_else(|_| "/verif/work/crash.d".to_string());
 	let _ = std::fs::remove_dir_all(&work);
 	std::fs::create_dir_all(&work).unwrap();
-	let mut rng = Rng::new(seed_from_env());
+	let seed = seed_from_env();
+	let mut rng = Rng::new(seed);
 	let thorough = tier_thorough();
 	let mut out = Out::stdout();
 
 	// ---- build the block tree on the builder chain ----
 	let mut kit = Kit::new(&format!("{}/builder", work));
 	let long = args.iter().any(|a| a == "long") || thorough;
+	let only: Option<Vec<String>> = args.iter().find(|a| a.starts_with("only=")).map(|a| a[5..].split(',').map(|s| s.to_string()).collect());
 	let n_trunk: usize = if long { 84 } else { 12 };
 	let mut tip = 0usize;
 	let mut trunk = vec![0usize];
@@ -207,6 +603,11 @@ fn main() {
 	let eq_child = eq_blk.and_then(|e| kit.new_block(e, 2, &[]).ok());
 	// a sibling of the tip with exactly the tip's total work (first seen wins: no reorganisation)
 	let eqw_blk = kit.new_block(trunk[n - 1], 2, &[]).ok();
+	// a child of the heavier coinbase-only fork block: a two-header batch that wins
+	let reorg_empty_child = reorg_empty.and_then(|e| kit.new_block(e, 2, &[]).ok());
+	// a light two-block fork three blocks below the tip: a header batch that does not win
+	let light_a = kit.new_block(trunk[n - 3], 1, &[]).ok();
+	let light_b = light_a.and_then(|e| kit.new_block(e, 1, &[]).ok());
 	std::fs::create_dir_all(format!("{}/blocks", work)).unwrap();
 	let gen_path = format!("{}/blocks/genesis.bin", work);
 	write_block(&gen_path, &kit.genesis);
@@ -214,192 +615,169 @@ fn main() {
 		write_block(&format!("{}/blocks/b{}.bin", work, r.id), &r.block);
 	}
 
-	let mut scenarios = vec![
-		Scenario { name: "plain-extension", pre: trunk[1..n].to_vec(), compact_pre: false, kind: "block", input: Some(trunk[n]), followup: None },
-	];
+	let full = &trunk[1..=n];
+	let mut scenarios = vec![sc("plain-extension", &trunk[1..n], "block", &[trunk[n]])];
 	if let Some(e) = empty_blk {
-		scenarios.push(Scenario { name: "coinbase-only-extension", pre: trunk[1..=n].to_vec(), compact_pre: false, kind: "block", input: Some(e), followup: None });
+		scenarios.push(sc("coinbase-only-extension", full, "block", &[e]));
 	}
 	if let Some(f) = fork_blk {
-		scenarios.push(Scenario { name: "fork-block", pre: trunk[1..=n].to_vec(), compact_pre: false, kind: "block", input: Some(f), followup: None });
+		scenarios.push(sc("fork-block", full, "block", &[f]));
 	}
 	if let Some(r) = reorg_blk {
-		scenarios.push(Scenario { name: "reorg-with-spends", pre: trunk[1..=n].to_vec(), compact_pre: false, kind: "block", input: Some(r), followup: None });
-		scenarios.push(Scenario { name: "header-only-reorg", pre: trunk[1..=n].to_vec(), compact_pre: false, kind: "header", input: Some(r), followup: None });
+		scenarios.push(sc("reorg-with-spends", full, "block", &[r]));
+		scenarios.push(sc("header-only-reorg", full, "header", &[r]));
 	}
 	if let Some(r) = reorg_empty {
-		scenarios.push(Scenario { name: "reorg-coinbase-only", pre: trunk[1..=n].to_vec(), compact_pre: false, kind: "block", input: Some(r), followup: None });
+		scenarios.push(sc("reorg-coinbase-only", full, "block", &[r]));
 	}
 	if let (Some(e), Some(ec)) = (eq_blk, eq_child) {
-		scenarios.push(Scenario { name: "header-reorg-equal-height", pre: trunk[1..=n].to_vec(), compact_pre: false, kind: "header", input: Some(e), followup: Some(ec) });
-		scenarios.push(Scenario { name: "block-reorg-equal-height", pre: trunk[1..=n].to_vec(), compact_pre: false, kind: "block", input: Some(e), followup: Some(ec) });
+		let mut a = sc("header-reorg-equal-height", full, "header", &[e]);
+		a.followup = vec![("header", ec)];
+		scenarios.push(a);
+		let mut b = sc("block-reorg-equal-height", full, "block", &[e]);
+		b.followup = vec![("header", ec)];
+		scenarios.push(b);
 	}
 	if let Some(e) = eqw_blk {
 		if kit.blks[e].work == kit.blks[trunk[n]].work {
-			scenarios.push(Scenario { name: "equal-work-fork-block", pre: trunk[1..=n].to_vec(), compact_pre: false, kind: "block", input: Some(e), followup: None });
-			scenarios.push(Scenario { name: "equal-work-fork-header", pre: trunk[1..=n].to_vec(), compact_pre: false, kind: "header", input: Some(e), followup: None });
+			scenarios.push(sc("equal-work-fork-block", full, "block", &[e]));
+			scenarios.push(sc("equal-work-fork-header", full, "header", &[e]));
 		}
 	}
+	// header batches (Chain::sync_block_headers): three headers extending the header chain of a node
+	// whose body is three blocks behind, then the bodies; a two-header batch of a heavier fork
+	// (header reorganisation by batch), then the bodies (block reorganisation on known headers); a
+	// batch of a lighter fork (stored, header MMR rolled back)
+	if n >= 6 {
+		let mut a = sc("header-batch-extension", &trunk[1..=n - 3], "headers", &trunk[n - 2..=n]);
+		a.followup = trunk[n - 2..=n].iter().map(|b| ("block", *b)).collect();
+		scenarios.push(a);
+	}
+	if let (Some(e), Some(ec)) = (reorg_empty, reorg_empty_child) {
+		let mut a = sc("header-batch-reorg", full, "headers", &[e, ec]);
+		a.followup = vec![("block", e), ("block", ec)];
+		scenarios.push(a);
+	}
+	if let (Some(a), Some(b)) = (light_a, light_b) {
+		let mut s = sc("header-batch-light-fork", full, "headers", &[a, b]);
+		s.followup = vec![("block", a)];
+		scenarios.push(s);
+	}
+	// two acceptances in one call: the headers of the last two blocks are known, the last block
+	// arrives first and waits in the orphan pool, its parent's acceptance then pulls it in
+	if n >= 6 {
+		let mut s = sc("orphan-chain", &trunk[1..=n - 2], "orphans", &[trunk[n - 1], trunk[n]]);
+		s.pre_headers = vec![trunk[n - 1], trunk[n]];
+		scenarios.push(s);
+		// a block whose header arrived first (header-first propagation)
+		let mut s = sc("block-after-header", &trunk[1..n], "block", &[trunk[n]]);
+		s.pre_headers = vec![trunk[n]];
+		scenarios.push(s);
+	}
+	// Chain::reset_chain_head (owner API): head and header head reset three blocks back
+	if n >= 6 {
+		scenarios.push(sc("reset-head", full, "reset", &[trunk[n - 3]]));
+	}
 	if long {
-		scenarios.push(Scenario { name: "compaction", pre: trunk[1..=n].to_vec(), compact_pre: false, kind: "compact", input: None, followup: None });
+		scenarios.push(sc("compaction", full, "compact", &[]));
 		if let Some(nb) = next_blk {
-			scenarios.push(Scenario { name: "compaction-then-block", pre: trunk[1..=n].to_vec(), compact_pre: true, kind: "block", input: Some(nb), followup: None });
+			let mut s = sc("compaction-then-block", full, "block", &[nb]);
+			s.compact_pre = true;
+			scenarios.push(s);
 		}
+	}
+	for s in scenarios.iter_mut() {
+		s.second = [
+			"plain-extension",
+			"reorg-with-spends",
+			"reorg-coinbase-only",
+			"header-only-reorg",
+			"header-batch-reorg",
+			"reset-head",
+			"compaction",
+			"compaction-then-block",
+		]
+		.contains(&s.name);
+	}
+	if let Some(only) = &only {
+		scenarios.retain(|s| only.iter().any(|o| o == s.name));
 	}
 
 	out.raw("crash reset");
 	for r in &kit.blks {
 		out.raw(&kit.blk_line(r.id).replacen("chain blk", "crash blk", 1));
 	}
+	out.flush();
+
+	// ---- the scenarios, several at a time, each in a forked process of its own (the crash-point
+	// counter and log of the hooks are per process); output in scenario order ----
+	let jobs: usize = std::env::var("VERIF_CRASH_JOBS").ok().and_then(|v| v.parse().ok()).unwrap_or(4).max(1);
+	let mut running: Vec<(usize, libc::pid_t)> = vec![];
+	let mut next = 0usize;
+	let mut failed_children = vec![];
+	while next < scenarios.len() || !running.is_empty() {
+		while next < scenarios.len() && running.len() < jobs {
+			let pid = unsafe { libc::fork() };
+			if pid == 0 {
+				let s = &scenarios[next];
+				let (lines, _) = run_scenario(&kit, s, &work, &exe, &gen_path, thorough, seed);
+				let p = format!("{}/out-{}.txt", work, s.name);
+				let ok = std::fs::write(&p, lines.join("\n") + "\n").is_ok();
+				unsafe { libc::_exit(if ok { 0 } else { 1 }) };
+			}
+			running.push((next, pid));
+			next += 1;
+		}
+		let mut status: libc::c_int = 0;
+		let done = unsafe { libc::wait(&mut status) };
+		if let Some(pos) = running.iter().position(|(_, p)| *p == done) {
+			let (i, _) = running.remove(pos);
+			if !(libc::WIFEXITED(status) && libc::WEXITSTATUS(status) == 0) {
+				failed_children.push(scenarios[i].name);
+			}
+		} else if done < 0 {
+			break;
+		}
+	}
 	let mut total_points = 0u64;
 	let mut total_fail = 0u64;
-	for sc in &scenarios {
-		// ---- base state ----
-		let base = format!("{}/{}-base", work, sc.name);
-		{
-			let c = init_chain(&base, kit.genesis.clone()).unwrap();
-			for i in &sc.pre {
-				c.process_block(kit.blks[*i].block.clone(), grin_chain::Options::SKIP_POW).unwrap();
-			}
-			if sc.compact_pre {
-				c.compact().unwrap();
-			}
-		}
-		let input_block = sc.input.map(|i| kit.blks[i].block.clone());
-		let input_path = sc.input.map(|i| format!("{}/blocks/b{}.bin", work, i)).unwrap_or("-".into());
-		// ---- reference: uninterrupted, with the step log ----
-		let refdir = format!("{}/{}-ref", work, sc.name);
-		copy_dir(Path::new(&base), Path::new(&refdir));
-		let mut ref_followup: Option<String> = None;
-		let (old, new_, labels, res) = {
-			let c = init_chain(&refdir, kit.genesis.clone()).unwrap();
-			let old = snap(&c, &kit);
-			verif_hooks::start_log();
-			let res = do_input(&c, sc.kind, input_block.as_ref());
-			let raw_labels = verif_hooks::take_log();
-			// LMDB commits carry no file name: qualify them by the last file step before them
-			let mut labels = vec![];
-			let mut last_file = "start".to_string();
-			for l in raw_labels {
-				if let Some(i) = l.find('[') {
-					last_file = l[i + 1..l.len() - 1].to_string();
-					labels.push(l);
-				} else {
-					labels.push(format!("{}(after:{})", l, last_file));
-				}
-			}
-			let new_ = snap(&c, &kit);
-			let fu = sc.followup.map(|f| do_input(&c, "header", Some(&kit.blks[f].block)));
-			ref_followup = fu;
-			(old, new_, labels, res)
-		};
-		out.line(
-			&format!("crash scenario {} kind={} input={}", sc.name, sc.kind, sc.input.map(|i| format!("b{}", i)).unwrap_or("-".into())),
-			&format!("{} steps={} old={} new={}", res, labels.len(), old.head, new_.head),
-		);
-		out.raw(&format!("crash steps {} {}", sc.name, labels.join(",")));
-		// ancestors of the old and new head (allowed heads after recovery)
-		let mut allowed: Vec<String> = vec![];
-		for start in [&old.head, &new_.head] {
-			if let Some(mut i) = start.strip_prefix('b').and_then(|s| s.parse::<usize>().ok()) {
-				loop {
-					allowed.push(format!("b{}", i));
-					match kit.blks[i].parent {
-						Some(p) => i = p,
-						None => break,
+	let mut total_second = 0u64;
+	for s in &scenarios {
+		let p = format!("{}/out-{}.txt", work, s.name);
+		match std::fs::read_to_string(&p) {
+			Ok(t) => {
+				for l in t.lines() {
+					if l.starts_with("crash case ") {
+						total_points += 1;
+					}
+					if l.starts_with("crash case2 ") {
+						total_second += 1;
+					}
+					if l.starts_with("#ORACLE-FAIL") {
+						total_fail += 1;
+					}
+					if l.starts_with('#') || !l.contains(" => ") {
+						out.raw(l);
+					} else {
+						let i = l.find(" => ").unwrap();
+						out.line(&l[..i], &l[i + 4..]);
 					}
 				}
 			}
-		}
-		// ---- every crash point ----
-		let stride = if thorough || labels.len() <= 40 { 1 } else { 1 };
-		for n in (1..=labels.len()).step_by(stride) {
-			total_points += 1;
-			let dir = format!("{}/{}-c{}", work, sc.name, n);
-			copy_dir(Path::new(&base), Path::new(&dir));
-			let st = Command::new(&exe)
-				.args(["child", &dir, &gen_path, sc.kind, &n.to_string(), &input_path])
-				.status()
-				.unwrap();
-			let code = st.code().unwrap_or(-1);
-			let label = &labels[n - 1];
-			let lhs = format!("crash case {} {} {}", sc.name, n, label);
-			if code != 86 {
-				out.line(&lhs, &format!("child-exit={}", code));
-				out.raw(&format!("#ORACLE-FAIL C09 harness: child did not die at the armed step: scenario={} n={} label={} exit={}", sc.name, n, label, code));
-				continue;
+			Err(_) => {
+				out.raw(&format!("#ORACLE-FAIL C09 harness: scenario {} produced no output (worker process failed)", s.name));
 			}
-			// reopen
-			let gen = kit.genesis.clone();
-			let dir2 = dir.clone();
-			let opened = catch(move || init_chain(&dir2, gen));
-			let verdict = match opened {
-				Err(p) => format!("open=panic:{}", p.chars().take(60).collect::<String>()),
-				Ok(Err(e)) => format!("open=err:{}", error_class(&e)),
-				Ok(Ok(c)) => {
-					let s = snap(&c, &kit);
-					let head_ok = allowed.contains(&s.head);
-					let val = match catch(std::panic::AssertUnwindSafe(|| c.validate(false))) {
-						Ok(Ok(_)) => "ok".to_string(),
-						Ok(Err(e)) => format!("err:{}", error_class(&e)),
-						Err(_) => "panic".to_string(),
-					};
-					// index consistency: what the node reports as unspent = replay of its head's path
-					// (checked by the model from the utxo list); then re-deliver the interrupted input
-					let redo = match catch(std::panic::AssertUnwindSafe(|| do_input(&c, sc.kind, input_block.as_ref()))) {
-						Ok(r) => r,
-						Err(_) => "panic".into(),
-					};
-					let after = snap(&c, &kit);
-					let fu = sc.followup.map(|f| {
-						catch(std::panic::AssertUnwindSafe(|| do_input(&c, "header", Some(&kit.blks[f].block)))).unwrap_or("panic".into())
-					});
-					let fu_same = fu == ref_followup;
-					let same = after.head == new_.head && after.roots == new_.roots && after.utxo == new_.utxo && fu_same;
-					let u: Vec<String> = s.utxo.iter().map(|i| format!("o{}", i)).collect();
-					format!(
-						"open=ok head={} head_allowed={} validate={} utxo=[{}] redeliver={} final={}",
-						s.head,
-						head_ok,
-						val,
-						u.join(","),
-						redo.split(':').next().unwrap_or(""),
-						if same {
-							"same".to_string()
-						} else {
-							format!(
-								"differs(head={} want={} roots={} utxo={})",
-								after.head,
-								new_.head,
-								if after.roots == new_.roots { "same".to_string() } else { format!("{}!={}", after.roots, new_.roots) },
-								if after.utxo == new_.utxo { "same".to_string() } else { format!("{}vs{}", after.utxo.len(), new_.utxo.len()) }
-							) + &format!(" followup={:?} want={:?}", fu, ref_followup)
-						}
-					)
-				}
-			};
-			out.line(&lhs, &verdict);
-			let good = verdict.starts_with("open=ok")
-				&& verdict.contains("head_allowed=true")
-				&& verdict.contains("validate=ok")
-				&& verdict.contains("final=same");
-			if !good {
-				total_fail += 1;
-				out.raw(&format!(
-					"#ORACLE-FAIL C09 crash-recovery scenario={} step={}/{} label={} :: {}",
-					sc.name,
-					n,
-					labels.len(),
-					label,
-					verdict.chars().take(300).collect::<String>()
-				));
-			}
-			let _ = std::fs::remove_dir_all(&dir);
 		}
-		let _ = std::fs::remove_dir_all(&base);
-		let _ = std::fs::remove_dir_all(&refdir);
 	}
-	out.raw(&format!("#STAT scenarios={} crash_points={} failing={}", scenarios.len(), total_points, total_fail));
+	for f in failed_children {
+		out.raw(&format!("#ORACLE-FAIL C09 harness: worker process of scenario {} failed", f));
+	}
+	out.raw(&format!(
+		"#STAT scenarios={} crash_points={} second_crash_points={} oracle_failures={}",
+		scenarios.len(),
+		total_points,
+		total_second,
+		total_fail
+	));
 	out.flush();
-	let _: Option<BlockHeader> = None;
 }
